@@ -43,7 +43,7 @@ def call(fn, *a):
         return "E ValueError"
     except ZeroDivisionError:
         return "E internal:ZeroDivisionError"
-    except AttributeError:
+    except (AttributeError, TypeError):
         return "E stub"  # the function read an attribute the stand-in argument of this comparison does not have: no verdict from here
     except Exception as ex:  # noqa: BLE001
         return "E internal:" + type(ex).__name__
